@@ -119,8 +119,23 @@ def clean_oracle(node):
     return orc
 
 
+# well-formed documents outside the family (no mark, no diagnostic)
+CLEAN_EXTRA = {
+    'verb_star': ('A \\verb*|x y| B', {}),
+    'verb_delims': ('A \\verb+a|b+ \\verb=c= \\verb!d! B', {}),
+    'verbatim_star': ('A\n\\begin{verbatim*}\nx y\n\\end{verbatim*}\nB', {}),
+    'accents_ok': ('A \\"a \\\'e \\^{o} \\c{c} \\v S \\"{} B', {}),
+    'skip_ok': ('A\n%%% LT-SKIP-BEGIN\n\\zzmacro{$x$ \\verb|$|} \\[ a \\]\n%%% LT-SKIP-END\nB', {}),
+    'math_ok': ('A $x$ \\(y\\) \\[ z \\] $$ w $$ B', {}),
+    'comment_dollar': ('A % $ { \\verb\nB', {}),
+    'escaped': ('A \\$ \\{ \\} \\% B', {}),
+}
+
+
 def items(tier, seed):
     out = []
+    for name in CLEAN_EXTRA:
+        out.append({'h': 'cleanx', 'name': name})
     for name in FAULTS:
         out.append({'h': 'fault', 'name': name, 'cost': 5})
     fam = family.family(tier, seed)
@@ -136,6 +151,9 @@ def build(item):
     if item['h'] == 'fault':
         S, opts, off, keep = FAULTS[item['name']]
         orc = fault_oracle(S, off, keep, bool(item.get('twin')))
+    elif item['h'] == 'cleanx':
+        S, opts = CLEAN_EXTRA[item['name']]
+        orc = clean_oracle(None)
     else:
         node = family.build(item['spec'])
         S, opts = node.src, dict(family.OPTS)
